@@ -42,6 +42,25 @@ func BaseType(t Type) Type {
 	return t
 }
 
+// copyValue makes a deep copy of the lists and maps of a value.
+func copyValue(v interface{}) interface{} {
+	switch tv := v.(type) {
+	case []interface{}:
+		list := make([]interface{}, len(tv))
+		for i, m := range tv {
+			list[i] = copyValue(m)
+		}
+		v = list
+	case map[string]interface{}:
+		obj := make(map[string]interface{}, len(tv))
+		for k, m := range tv {
+			obj[k] = copyValue(m)
+		}
+		v = obj
+	}
+	return v
+}
+
 // numberAsFloat returns a numeric value of any kind as a float64.
 func numberAsFloat(v interface{}) (f float64, ok bool) {
 	ok = true
